@@ -137,6 +137,8 @@ def gen(rng, tier, index):
     spec["xform"] = gens.pick(rng, forms.PRESENT)
     spec["yform"] = gens.pick(rng, forms.PRESENT)
     spec["clobber"] = bool(rng.random() < 0.5)
+    spec["npscalars"] = bool(rng.random() < 0.3)
+    spec["reject"] = bool(rng.random() < 0.4)
     spec["carry"] = gens.pick(rng, forms.CARRY)
     return {
         "spec": spec,
@@ -333,6 +335,8 @@ def run(case, j):
         j.note("non_default_containers")
     if spec.get("xint"):
         j.note("integer_typed_inputs")
+    if spec.get("npscalars"):
+        j.note("numpy_scalar_parameters")
     if isinstance(spec["kw"].get("initialize"), dict) and spec["kw"]["initialize"].get("dtype"):
         j.note("compact_dtype_seeds_with_many_candidates")
     est = sel.make(spec)
@@ -346,6 +350,8 @@ def run(case, j):
         j.tag("unit:small" if case["unit"] < 1 else "unit:large")
         if case["unit"] < 1e-4:
             j.note("small_unit_cases")
+    if spec.get("reject"):
+        forms.rejected(j, "warm start of a never-fitted selector", sel.fit, est, X, y, spec, warm=True)
     dc = case.get("decoy")
     if dc:
         est.n_to_select = dc["n"]
@@ -361,9 +367,16 @@ def run(case, j):
     seq = []
     any_stop = False
     for li, link in enumerate(chain):
+        if li > 0 and spec.get("reject") and int(getattr(est, "n_selected_", 0)) >= 2:
+            # a failure in the history: a warm start that asks for fewer selections than were already made is refused;
+            # the request is then corrected and the chain goes on with the same object
+            est.n_to_select = int(est.n_selected_) - 1
+            forms.rejected(j, "shrinking warm start", sel.fit, est, X, y, spec, warm=True)
         params = {"n_to_select": link["n"]}
         if thr is not None and li == len(chain) - 1:
             params.update(score_threshold_type=thr[0], score_threshold=float(thr[1]))
+        if spec.get("npscalars"):
+            params = forms.numpy_scalars(params)
         for k_, v_ in params.items():  # VoronoiFPS takes **kwargs, so set_params does not know n_to_select
             setattr(est, k_, v_)
         if li > 0 and spec.get("carry", "same") != "same":
